@@ -49,13 +49,7 @@ theorem addEdgesFrom_frozen (s : HG) (fmt : Fmt) (items : List EdgeItem) (attr :
     (addEdgesFrom s fmt items attr).1.frozen = s.frozen := by
   have key := bulk_frozen (addEdgesItem fmt attr) (addEdgesItem_frozen fmt attr) items s
   unfold addEdgesFrom
-  split
-  · split
-    · rfl
-    · split
-      · rfl
-      · exact key
-  · exact key
+  (repeat' split) <;> first | rfl | exact key
 
 theorem removeEdgesFrom_frozen (s : HG) (es : List PyId) : (removeEdgesFrom s es).1.frozen = s.frozen := by
   unfold removeEdgesFrom
